@@ -179,7 +179,7 @@ fn history_ac(cfg: &Cfg, rep: &mut Report, h: u64, steps: usize) {
     rep.op("deploy AcWrap admin=0".into());
     for step in 0..steps {
         if rng.chance(1, 12) {
-            let t = w.ledger() + 1 + rng.below(30) as u32;
+            let t = w.ledger() + if rng.chance(1, 8) { 1_700_000 } else { 1 + rng.below(30) as u32 };
             w.set_ledger(t);
             rep.op(format!("ledger -> {t}"));
         }
